@@ -1,4 +1,5 @@
 import Btdht.Proofs.Codec
+import Btdht.Proofs.Reorder
 import Btdht.Proofs.Bencode
 /-!
 # C13 — KRPC wire codec conforms to BEP5/BEP32 and round-trips every message
@@ -16,8 +17,11 @@ torrust-serde-bencode 0.2.3 and serde's derive semantics), tied to the code by t
 Proved here for the whole message space: byte-level round trip (with any trailing bytes),
 totality of the encoder on well-formed messages, sorted keys at every level, the literal BEP
 templates of ping and announce_peer, and the rejections. The invariance under key reordering and
-unknown keys is, so far, decided by the tie only (the engine's `reorder_unknown` generator with the
-BEP oracle); its Lean proof (`C13_reorder_unknown`) is work in progress — C13 is **partial** there.
+unknown keys is proved at every level (`C13_reorder_unknown_tree`, `C13_reorder_unknown`): any
+dictionary that holds the encoder's pairs of the top level, of `a` and of `r` in any order, with any
+further pairs under keys that are not field names of that level (UTF-8 strings such as `v`, `ip`,
+`ro`, `noseed`, `scrape`, `name`; arbitrary well-formed values nested no deeper than the pre-scan's
+32 levels) decodes to the same message. The class of variants is `MsgVariant`.
 -/
 namespace Btdht
 
@@ -338,5 +342,177 @@ theorem C13_rejects_mismatch (l : BList) (tid : Bytes) (r : Req) (h : decodeTree
     · split at h
       · simp at h
       · exact decodeQ_some _ _ (assemble_req _ _ _ _ _ _ _ _ h).2.1
+
+/-! ### reordered keys, unknown keys -/
+
+theorem flatten_append (a b : List (BVal × BVal)) : flatten (a ++ b) = flatten a ++ flatten b := by
+  induction a with
+  | nil => rfl
+  | cons p rest ih => simp [flatten, ih]
+
+/-- the arguments of a query as key/value pairs -/
+def reqPairs : Req → List (BVal × BVal)
+  | .ping id => [(.bytes K.id, .bytes id)]
+  | .findNode id target w =>
+    [(.bytes K.id, .bytes id), (.bytes K.target, .bytes target)] ++ (match w with | some w => [(.bytes K.want, wantVal w)] | none => [])
+  | .getPeers id ih w =>
+    [(.bytes K.id, .bytes id), (.bytes K.infoHash, .bytes ih)] ++ (match w with | some w => [(.bytes K.want, wantVal w)] | none => [])
+  | .announce id ih port token =>
+    [(.bytes K.id, .bytes id)] ++ (match port with | none => [(.bytes K.impliedPort, .int 1)] | some _ => []) ++
+    [(.bytes K.infoHash, .bytes ih), (.bytes K.port, .int (Int.ofNat (port.getD 0))), (.bytes K.token, .bytes token)]
+
+theorem flatten_reqPairs (r : Req) : flatten (reqPairs r) = reqArgs r := by
+  cases r with
+  | ping id => rfl
+  | findNode id target w => cases w <;> rfl
+  | getPeers id ih w => cases w <;> rfl
+  | announce id ih port token => cases port <;> rfl
+
+/-- the body of a response as key/value pairs -/
+def respPairs (r : Resp) : List (BVal × BVal) :=
+  [(.bytes K.id, .bytes r.id)] ++
+  (if r.nodes4.isEmpty then [] else [(.bytes K.nodes, .bytes (r.nodes4.flatMap compactNode))]) ++
+  (if r.nodes6.isEmpty then [] else [(.bytes K.nodes6, .bytes (r.nodes6.flatMap compactNode))]) ++
+  (match r.token with | some t => [(.bytes K.token, .bytes t)] | none => []) ++
+  (if r.values.isEmpty then [] else [(.bytes K.values, .list (BList.ofList (r.values.map fun a => .bytes (compactAddr a))))])
+
+theorem flatten_respPairs (r : Resp) : flatten (respPairs r) = respArgs r := by
+  obtain ⟨id, values, n4, n6, token⟩ := r
+  simp only [respPairs, respArgs, flatten_append]
+  cases token <;> by_cases h4 : n4.isEmpty = true <;> by_cases h6 : n6.isEmpty = true <;>
+    by_cases hv : values.isEmpty = true <;> simp [h4, h6, hv, flatten]
+
+/-- **the variants of a message's encoding**: a dictionary holding the encoder's top-level pairs in
+any order plus pairs under keys that are no top-level field names, the value of `a` / `r` being in
+turn such a variant of the encoder's argument / response dictionary. -/
+inductive MsgVariant : Msg → BVal → Prop where
+  | req (tid : Bytes) (r : Req) (aps' tps' : List (BVal × BVal)) :
+      IsVariantOf argKeys (reqPairs r) aps' →
+      IsVariantOf topKeys [(.bytes K.a, .dict (BList.ofList (flatten aps'))), (.bytes K.q, .bytes (reqName r)),
+                           (.bytes K.t, .bytes tid), (.bytes K.y, .bytes K.q)] tps' →
+      MsgVariant ⟨tid, .req r⟩ (.dict (BList.ofList (flatten tps')))
+  | resp (tid : Bytes) (r : Resp) (rps' tps' : List (BVal × BVal)) :
+      IsVariantOf respKeys (respPairs r) rps' →
+      IsVariantOf topKeys [(.bytes K.r, .dict (BList.ofList (flatten rps'))), (.bytes K.t, .bytes tid),
+                           (.bytes K.y, .bytes K.r)] tps' →
+      MsgVariant ⟨tid, .resp r⟩ (.dict (BList.ofList (flatten tps')))
+  | err (tid : Bytes) (code : Nat) (msg : Bytes) (tps' : List (BVal × BVal)) :
+      IsVariantOf topKeys [(.bytes K.e, .list (BList.ofList [.int (Int.ofNat code), .bytes msg])), (.bytes K.t, .bytes tid),
+                           (.bytes K.y, .bytes K.e)] tps' →
+      MsgVariant ⟨tid, .err code msg⟩ (.dict (BList.ofList (flatten tps')))
+
+theorem keysBytes_reqArgs (r : Req) : keysBytes (reqArgs r) = true := by
+  cases r with
+  | ping id => rfl
+  | findNode id target w => cases w <;> rfl
+  | getPeers id ih w => cases w <;> rfl
+  | announce id ih port token => cases port <;> rfl
+
+theorem keysUtf8_respArgs (r : Resp) : keysUtf8 (respArgs r) = true := by
+  rw [← flatten_respPairs]
+  apply keysUtf8_flatten
+  intro p hp
+  unfold respPairs at hp
+  simp only [List.mem_append, List.mem_singleton] at hp
+  rcases hp with (((hp | hp) | hp) | hp) | hp
+  · exact ⟨K.id, by rw [hp], by decide⟩
+  · split at hp
+    · simp at hp
+    · simp only [List.mem_singleton] at hp; exact ⟨K.nodes, by rw [hp], by decide⟩
+  · split at hp
+    · simp at hp
+    · simp only [List.mem_singleton] at hp; exact ⟨K.nodes6, by rw [hp], by decide⟩
+  · split at hp
+    · simp only [List.mem_singleton] at hp; exact ⟨K.token, by rw [hp], by decide⟩
+    · simp at hp
+  · split at hp
+    · simp at hp
+    · simp only [List.mem_singleton] at hp; exact ⟨K.values, by rw [hp], by decide⟩
+
+/-- **C13 (reordered keys, unknown keys — tree level)**: every variant of the encoder's tree of a
+well-formed message is interpreted as that message. -/
+theorem C13_reorder_unknown_tree (m : Msg) (v' : BVal) (hv : MsgVariant m v') (h : m.WF) : decodeTree v' = .ok m := by
+  cases hv with
+  | req tid r aps' tps' ha ht =>
+    -- the argument dictionary
+    have hargs : decodeArgs (flatten aps') = some r := by
+      rw [decodeArgs_congr (flatten (reqPairs r)) (flatten aps')
+        (by rw [keysBytes_flatten aps' ha.keys, flatten_reqPairs, keysBytes_reqArgs])
+        (fun key hk => variant_field argKeys _ _ ha key hk), flatten_reqPairs]
+      exact decodeArgs_reqArgs r h
+    have hname : reqNameOf? (reqName r) = some (reqName r) := by cases r <;> simp [reqNameOf?, reqName]
+    rw [decodeTree_congr (flatten [(BVal.bytes K.a, BVal.dict (BList.ofList (flatten aps'))), (.bytes K.q, .bytes (reqName r)),
+        (.bytes K.t, .bytes tid), (.bytes K.y, .bytes K.q)]) (flatten tps')
+      (by rw [keysUtf8_flatten tps' ht.keys]; simp [flatten, keysUtf8, validUtf8, K.a, K.q, K.t, K.y])
+      (fun key hk => variant_field topKeys _ _ ht key hk)]
+    simp only [flatten, decodeTree, toList_ofList]
+    simp [keysUtf8, validUtf8, fieldOf, isKey, K.a, K.e, K.q, K.r, K.t, K.y, isDict, isList, isDup, decodeQ, assemble, bytesLike, toList_ofList, hargs, hname]
+  | resp tid r rps' tps' hr ht =>
+    have hresp : decodeResp (flatten rps') = some r := by
+      rw [decodeResp_congr (flatten (respPairs r)) (flatten rps')
+        (by rw [keysUtf8_flatten rps' hr.keys, flatten_respPairs, keysUtf8_respArgs])
+        (fun key hk => variant_field respKeys _ _ hr key hk), flatten_respPairs]
+      exact decodeResp_respArgs r h
+    rw [decodeTree_congr (flatten [(BVal.bytes K.r, BVal.dict (BList.ofList (flatten rps'))), (.bytes K.t, .bytes tid),
+        (.bytes K.y, .bytes K.r)]) (flatten tps')
+      (by rw [keysUtf8_flatten tps' ht.keys]; simp [flatten, keysUtf8, validUtf8, K.r, K.t, K.y])
+      (fun key hk => variant_field topKeys _ _ ht key hk)]
+    simp only [flatten, decodeTree, toList_ofList]
+    simp [keysUtf8, validUtf8, fieldOf, isKey, K.a, K.e, K.q, K.r, K.t, K.y, isDict, isList, isDup, decodeQ, assemble, bytesLike, toList_ofList, hresp]
+  | err tid code msg tps' ht =>
+    have he := decodeErr_ok code msg h.1 h.2
+    simp only [Int.ofNat_eq_natCast] at he
+    rw [decodeTree_congr (flatten [(BVal.bytes K.e, BVal.list (BList.ofList [.int (Int.ofNat code), .bytes msg])), (.bytes K.t, .bytes tid),
+        (.bytes K.y, .bytes K.e)]) (flatten tps')
+      (by rw [keysUtf8_flatten tps' ht.keys]; simp [flatten, keysUtf8, validUtf8, K.e, K.t, K.y])
+      (fun key hk => variant_field topKeys _ _ ht key hk)]
+    simp only [flatten, decodeTree, toList_ofList]
+    simp [keysUtf8, validUtf8, fieldOf, isKey, K.a, K.e, K.q, K.r, K.t, K.y, isDict, isList, isDup, decodeQ, assemble, bytesLike, toList_ofList, he]
+
+/-- **C13 (reordered keys, unknown keys — byte level)**: the bytes of any variant of a well-formed
+message's encoding — keys in any order at every level, further keys that are no field names of
+their level, with arbitrary well-formed values nested no deeper than the pre-scan's limit —
+followed by any trailing bytes, decode to that message. -/
+theorem C13_reorder_unknown (m : Msg) (v' : BVal) (hv : MsgVariant m v') (h : m.WF)
+    (hok : BVal.Ok v') (hdep : BVal.depth v' ≤ 32) (trailing : Bytes) :
+    decodeMsg (printVal v' ++ trailing) = .ok m := by
+  unfold decodeMsg
+  rw [checkLimits_printVal _ _ hok hdep, readTop_printVal _ _ hok]
+  simp [C13_reorder_unknown_tree m v' hv h]
+
+/-- Non-vacuity: `d1:y1:q1:v2:UT1:t2:aa1:q4:ping1:ad2:roi1e2:id20:<id>ee` (keys out of order,
+`v` at the top level, `ro` inside the arguments) is a variant of the ping it spells. -/
+example (id : Bytes) :
+    MsgVariant ⟨[97, 97], .req (.ping id)⟩
+      (.dict (BList.ofList (flatten
+        [(.bytes K.y, .bytes K.q), (.bytes [118], .bytes [85, 84]), (.bytes K.t, .bytes [97, 97]), (.bytes K.q, .bytes K.ping),
+         (.bytes K.a, .dict (BList.ofList (flatten [(.bytes [114, 111], .int 1), (.bytes K.id, .bytes id)])))]))) := by
+  refine MsgVariant.req [97, 97] (.ping id) [(.bytes [114, 111], .int 1), (.bytes K.id, .bytes id)] _ ⟨?_, ?_, ?_⟩ ⟨?_, ?_, ?_⟩
+  · simp [argKeys, keyIs, isKey, K.id, K.target, K.want, K.infoHash, K.token, K.port, K.impliedPort, reqPairs]
+  · simp [argKeys, keyIs, isKey, K.id, reqPairs]
+  · intro p hp
+    simp only [List.mem_cons, List.not_mem_nil, or_false] at hp
+    rcases hp with rfl | rfl
+    · exact ⟨[114, 111], rfl, by decide⟩
+    · exact ⟨K.id, rfl, by decide⟩
+  · -- the known pairs  y, t, q, a  are the encoder's  a, q, t, y  in reverse order
+    have hf : (List.filter (fun p => topKeys.any (fun k => keyIs k p))
+        [(BVal.bytes K.y, BVal.bytes K.q), (.bytes [118], .bytes [85, 84]), (.bytes K.t, .bytes [97, 97]), (.bytes K.q, .bytes K.ping),
+         (.bytes K.a, .dict (BList.ofList (flatten [(.bytes [114, 111], .int 1), (.bytes K.id, .bytes id)])))]) =
+        [(BVal.bytes K.y, BVal.bytes K.q), (.bytes K.t, .bytes [97, 97]), (.bytes K.q, .bytes K.ping),
+         (.bytes K.a, .dict (BList.ofList (flatten [(.bytes [114, 111], .int 1), (.bytes K.id, .bytes id)])))] := by
+      simp [topKeys, keyIs, isKey, K.t, K.y, K.q, K.a, K.r, K.e]
+    rw [hf]
+    exact List.reverse_perm [(BVal.bytes K.a, BVal.dict (BList.ofList (flatten [(.bytes [114, 111], .int 1), (.bytes K.id, .bytes id)]))),
+      (.bytes K.q, .bytes (reqName (.ping id))), (.bytes K.t, .bytes [97, 97]), (.bytes K.y, .bytes K.q)]
+  · simp [topKeys, keyIs, isKey, K.t, K.y, K.q, K.a, K.r, K.e]
+  · intro p hp
+    simp only [List.mem_cons, List.not_mem_nil, or_false] at hp
+    rcases hp with rfl | rfl | rfl | rfl | rfl
+    · exact ⟨K.y, rfl, by decide⟩
+    · exact ⟨[118], rfl, by decide⟩
+    · exact ⟨K.t, rfl, by decide⟩
+    · exact ⟨K.q, rfl, by decide⟩
+    · exact ⟨K.a, rfl, by decide⟩
 
 end Btdht
